@@ -299,3 +299,28 @@ M("C09", "plaintext-chaining", "xordecode.py", "            data += xor(chunk, n
 M("C09", "first-candidate-unvalidated", "xordecode.py", "            if pe.find_mz_offset(cast(BinaryIO, xf)) is not None:\n                xf.seek(0)\n                return xf", "            xf.seek(0)\n            return xf", "C09.R4")
 M("C09", "no-rewind", "xordecode.py", "                xf.seek(0)\n                return xf", "                return xf", "C09.R4")
 T("C09", "twin-header-const", "xordecode.py", "        return self.fh.tell() - (self.nonce_offset + 8)", "        return self.fh.tell() - self.nonce_offset - 8")
+
+# =============================================================================== C16
+M("C16", "body-rpartition", "c2.py", "    header_data, _, body = data.partition(b\"\\r\\n\\r\\n\")", "    header_data, _, body = data.rpartition(b\"\\r\\n\\r\\n\")", "C16.R1")
+M("C16", "body-stripped", "c2.py", "        return HttpResponse(body=body, headers=headers, status=status_code, reason=reason)", "        return HttpResponse(body=body.strip(), headers=headers, status=status_code, reason=reason)", "C16.R1")
+M("C16", "no-length-test-request", "c2.py", "    if len(parts) != 3:\n        raise ValueError(f\"Error in parsing request status line: {first_line!r}\")\n", "", "C16.R")
+M("C16", "status-reason-swapped", "c2.py", "        _version, status, reason = parts", "        _version, reason, status = parts", "C16.R3")
+M("C16", "method-uri-swapped", "c2.py", "    method, uri, _version = parts", "    uri, method, _version = parts", "C16.R3")
+M("C16", "response-by-status-digits", "c2.py", "    if first_line.upper().startswith(b\"HTTP/\"):", "    if first_line[:1].isalpha() and first_line.endswith(b\"OK\"):", "C16.R4")
+M("C16", "header-split-colon-only", "c2.py", "        key, _, value = header.partition(b\": \")", "        key, _, value = header.partition(b\":\")", "C16.R5")
+M("C16", "status-int-of-bytes-keyerror", "c2.py", "        status_code = int(status.decode())", "        status_code = {b\"200\": 200, b\"404\": 404}[status]", "C16.R")
+T("C16", "twin-rename-body", "c2.py", "    header_data, _, body = data.partition(b\"\\r\\n\\r\\n\")\n    first_line, _, header_data = header_data.partition(b\"\\r\\n\")", "    head, _, body = data.partition(b\"\\r\\n\\r\\n\")\n    first_line, _, header_data = head.partition(b\"\\r\\n\")")
+
+# =============================================================================== C17
+M("C17", "assign-before-compare", "guardrails.py", "            if grconfig.checksum == checksum:\n                log.info(\"Found guardrail payload xorkey: %r\", xorkey)\n                grconfig.payload_xor_key = xorkey\n                grconfig.unmasked_beacon_config = unguarded",
+  "            grconfig.unmasked_beacon_config = unguarded\n            if grconfig.checksum == checksum:\n                log.info(\"Found guardrail payload xorkey: %r\", xorkey)\n                grconfig.payload_xor_key = xorkey", "C17.R1")
+M("C17", "checksum-no-plus-one", "guardrails.py", "            checksum = payload_checksum(unguarded) + 1", "            checksum = payload_checksum(unguarded)", "C17.R1")
+M("C17", "store-guarded-not-unguarded", "guardrails.py", "                grconfig.unmasked_beacon_config = unguarded", "                grconfig.unmasked_beacon_config = guarded_config", "C17.R1")
+M("C17", "from-file-no-continue", "beacon.py", "            if not grconfig.unmasked_beacon_config:\n                continue\n", "", "C17.R2")
+M("C17", "marker-table-type", "guardrails.py", "    b\"\\x00\\x08\\x00\\x02\\x00\\x04\",  # GUARD_LOCAL_IP", "    b\"\\x00\\x08\\x00\\x01\\x00\\x04\",  # GUARD_LOCAL_IP", "C17.R3")
+M("C17", "checksum-option-number", "guardrails.py", "    GUARD_PAYLOAD_CHECKSUM = 9,", "    GUARD_PAYLOAD_CHECKSUM = 10,", "C17.R3")
+M("C17", "patch-size", "guardrails.py", "BEACON_CONFIG_PATCH_SIZE = 6144", "BEACON_CONFIG_PATCH_SIZE = 4096", "C17.R4")
+M("C17", "mask-not-reversed", "guardrails.py", "            unmasked_guard_config = xor(xor(masked_guard_config, masked_beacon_config[::-1]), xorkey)", "            unmasked_guard_config = xor(xor(masked_guard_config, masked_beacon_config), xorkey)", "C17.R4")
+M("C17", "key-length-range", "guardrails.py", "    for keylen in range(2, 257):", "    for keylen in range(2, 256):", "C17.R5")
+M("C17", "checksum-weights", "guardrails.py", "        n = (n + (data[i] & 0xFF) * (i % 3 + 1)) % 99999999", "        n = (n + (data[i] & 0xFF) * (i % 3)) % 99999999", "C17.R5")
+T("C17", "twin-comment", "guardrails.py", "            checksum = payload_checksum(unguarded) + 1", "            checksum = 1 + payload_checksum(unguarded)")
